@@ -131,6 +131,11 @@ def check_message(msg, tab, msa, flag, viol, tags, which='layers', n_hits_above=
         if not cloud and msg != 'NCD':
             V(viol, 'C02', 'NCD expected (no layer of >=1 okta, flag not set)', which=which,
               msg=msg, okta=okta, base=base, msa=msa, flag=bool(flag))
+        if msg == 'NSC' and not in_buffer and n_hits_above is not None and n_hits_above <= max_hits_okta0:
+            V(viol, 'C02', 'NSC although no layer of >=1 okta exists and the hits above MSA+buffer do not exceed MAX_HITS_OKTA0',
+              which=which, n_above=n_hits_above, max_hits_okta0=max_hits_okta0, flag=bool(flag))
+        if n_hits_above is not None and n_hits_above == max_hits_okta0 and n_hits_above > 0:
+            tags.add('n_above_eq_MAX_HITS_OKTA0_nothing_reportable')
         if msg == 'NCD' and n_hits_above is not None and n_hits_above > max_hits_okta0:
             V(viol, 'C02', 'NCD although the hits cropped above MSA+buffer exceed MAX_HITS_OKTA0',
               which=which, n_above=n_hits_above, max_hits_okta0=max_hits_okta0)
